@@ -251,6 +251,17 @@ def close_spec(draw):
         spec["additional"] += ["notl", "coupons"]
         stack += [["SetNotional", {"frame": "notl"}], ["Rebalance", {}]]
         spec["tree"] = {"name": "root", "kind": "FixedIncomeStrategy", "algos": stack, "children": [{"sec": t, "kind": draw(st.sampled_from(["CouponPayingSecurity", "FixedIncomeSecurity", "HedgeSecurity"]))} for t in tickers]}
+    elif draw(st.integers(0, 2)) == 0:
+        # the closing algo comes last: on the close date the security has just been traded by an earlier algo of the same pass that only
+        # marks the tree stale (as HedgeRisks does) - everything held then is to be closed
+        stack = list(weigh) + [["Rebalance", {}]]
+        for t in sorted(cd):
+            due = [i for i, d_ in enumerate(ds) if d_[:10] >= cd[t]]
+            if due:
+                stack.append(["Or", {"algos": [["Stack", {"algos": [["RunOnDate", {"dates": [ds[due[0]]]}], ["TradeNoUpdate", {"child": t, "frac": draw(st.sampled_from([0.05, -0.03, 0.2])), "how": "lazy"}]]}], ["Const", {"v": True}]]}])
+        stack.append(["ClosePositionsAfterDates", {"frame": "closes"}])
+        spec["tree"] = {"name": "root", "kind": "Strategy", "algos": stack, "children": list(tickers)}
+        spec["close_last"] = True
     else:
         stack += [["Rebalance", {}]]
         spec["tree"] = {"name": "root", "kind": "Strategy", "algos": stack, "children": list(tickers)}
@@ -259,7 +270,7 @@ def close_spec(draw):
 
 def case_close(ctx, spec):
     bt = ctx.bt
-    base = {k: v for k, v in spec.items() if k != "close_dates"}
+    base = {k: v for k, v in spec.items() if k not in ("close_dates", "close_last")}
     try:
         b = interp.mk_backtest(bt, base)
         with contextlib.redirect_stdout(io.StringIO()):
@@ -296,7 +307,7 @@ def case_close(ctx, spec):
         live = pos[pos.index > s.data.index[0]] if d is None else pos[(pos.index > s.data.index[0]) & (pos.index < pd.Timestamp(d))]
         if len(live) and (live == 0).all() and not isinstance(s.children[t], bt.core.HedgeSecurity) and len(s.children) <= 5:
             raise Violation("%s is never held although it is not (yet) closed" % t, signature="c20:never-held")
-    return {"nontrivial": closed_any, "labels": ["fi" if spec["tree"]["kind"] == "FixedIncomeStrategy" else "mv"]}
+    return {"nontrivial": closed_any, "labels": ["fi" if spec["tree"]["kind"] == "FixedIncomeStrategy" else "mv"] + (["closing_algo_last_after_pending_trade"] if spec.get("close_last") else [])}
 
 
 # ---- roll -----------------------------------------------------------------------------------------------
